@@ -1,4 +1,6 @@
 """Kani leg: contracts as assume/assert harnesses over the unmodified crate (DESIGN 3.3)."""
+import contextlib
+import fcntl
 import json
 import os
 import re
@@ -7,7 +9,22 @@ from common import (KANI_TARGET, CACHE, VERIF, Undecided, log, offline_env, run,
 
 KANI_DIR = os.path.join(VERIF, "kani")
 REPLAY_TARGET = os.path.join(CACHE, "replay-target")
+MEM_GB = float(os.environ.get("VERIF_KANI_MEM_GB", "14"))
 CLAUSE_RE = re.compile(r"\[([A-Z][0-9A-Za-z]*(?:\.[0-9A-Za-z_]+)+)\]")
+
+
+@contextlib.contextmanager
+def target_lock(name):
+    """Concurrent cargo-kani runs that share a target directory corrupt each other's goto binaries
+    (observed: `irep not terminated`); serialise them."""
+    os.makedirs(CACHE, exist_ok=True)
+    f = open(os.path.join(CACHE, name + ".lock"), "w")
+    try:
+        fcntl.flock(f, fcntl.LOCK_EX)
+        yield
+    finally:
+        fcntl.flock(f, fcntl.LOCK_UN)
+        f.close()
 
 
 class Group:
@@ -18,6 +35,8 @@ class Group:
         self.default_clause = None
         self.harnesses = {}   # name -> dict(tier, kind, fn, bound, note)
         self.clauses = {}     # id -> text
+        self.pre_hooks = []   # generators run on the scratch copy before the build (see HOOKS)
+        self.extra_deps = []  # lines added under [dependencies] of the scratch Cargo.toml (already in Cargo.lock)
         self.text = open(path).read()
         for line in self.text.splitlines():
             if not line.startswith("//@"):
@@ -41,6 +60,10 @@ class Group:
                 self.harnesses[parts[1]] = h
             elif key == "clause":
                 self.clauses[parts[1]] = " ".join(parts[2:])
+            elif key == "pre-hook":
+                self.pre_hooks.append(parts[1])
+            elif key == "extra-dep":
+                self.extra_deps.append(" ".join(parts[1:]))
         if not (self.name and self.inject):
             raise Undecided("kani group file %s lacks //@ group / inject" % path)
 
@@ -57,6 +80,27 @@ class Group:
 
     def full(self, h):
         return self.modpath() + "::" + h
+
+
+def hook_k5_table(scratch, env):
+    """Regenerate the list of defined error kinds from the snapshot's errorcodes.rs."""
+    src = open(os.path.join(scratch, "src/errorcodes.rs")).read()
+    m = re.search(r"pub enum ErrorKind \{(.*?)\n\}", src, re.S)
+    if not m:
+        raise Undecided("lost anchor: enum ErrorKind not found in src/errorcodes.rs")
+    codes = [int(c) for c in re.findall(r"^\s+[A-Z][A-Z0-9_]* = (\d+),\s*$", m.group(1), re.M)]
+    n_variants = len(re.findall(r"^\s+[A-Z][A-Z0-9_]*( = \d+)?,\s*$", m.group(1), re.M))
+    if not codes or n_variants != len(codes):
+        raise Undecided("errorcodes.rs: %d variants but %d explicit discriminants" % (n_variants, len(codes)))
+    path = os.path.join(scratch, "verif_k5_table.rs")
+    with open(path, "w") as f:
+        f.write("pub const N_DEFINED: usize = %d;\n" % len(codes))
+        f.write("pub fn is_defined(x: u16) -> bool {\n    matches!(x, %s)\n}\n" % " | ".join(str(c) for c in sorted(codes)))
+    env["VERIF_K5_TABLE"] = path
+    return {"defined_error_kinds": len(codes)}
+
+
+HOOKS = {"k5_table": hook_k5_table}
 
 
 def load_group(name):
@@ -81,16 +125,23 @@ def inject(scratch, groups, replay=None):
                 f.write("\n#[cfg(verif_replay)]\n#[test]\nfn verif_replay_run() {\n"
                         "    crate::verif_kani_common::vk::load(vec![%s]);\n    %s::%s();\n}\n"
                         % (vals, g.modname, replay[1]))
+    deps = sorted({d for g in groups for d in g.extra_deps})
+    if deps:
+        cargo = os.path.join(scratch, "Cargo.toml")
+        txt = open(cargo).read()
+        txt = txt.replace("[dependencies]\n", "[dependencies]\n" + "\n".join(deps) + "\n", 1)
+        open(cargo, "w").write(txt)
     # the dependency lock of /repo is used as is
     if not os.path.exists(os.path.join(scratch, "Cargo.lock")):
         raise Undecided("Cargo.lock missing in snapshot")
 
 
-def kani_cmd(harness_full, jobs, export_json, playback=False):
+def kani_cmd(harness_full, jobs, export_json, playback=False, harness_timeout=900):
     cmd = ["cargo", "kani", "-Z", "function-contracts", "-Z", "stubbing", "-Z", "unstable-options",
            "--output-format", "terse", "--exact"]
     for h in harness_full:
         cmd += ["--harness", h]
+    cmd += ["--harness-timeout", "%ds" % harness_timeout]
     if playback:
         cmd += ["-Z", "concrete-playback", "--concrete-playback=print"]
     else:
@@ -124,7 +175,12 @@ def run_harnesses(scratch, groups_harnesses, jobs=8, timeout=3000, label="kani")
     export = os.path.join(scratch, "kani-export-%s.json" % label)
     cmd = kani_cmd(full, jobs, export)
     env = offline_env({"CARGO_TARGET_DIR": KANI_TARGET})
-    rc, out, err, wall = run(cmd, cwd=scratch, timeout=timeout, env=env)
+    for g, _ in groups_harnesses:
+        for h in g.pre_hooks:
+            HOOKS[h](scratch, env)
+    # memory ceiling for the whole process tree (CBMC reached 36 GB on an oversized harness)
+    with target_lock("kani"):
+        rc, out, err, wall = run(cmd, cwd=scratch, timeout=timeout, env=env, mem_gb=MEM_GB)
     text = out + "\n" + err
     if rc == -9:
         raise Undecided("cargo kani timed out after %ss" % timeout)
@@ -164,6 +220,10 @@ def run_harnesses(scratch, groups_harnesses, jobs=8, timeout=3000, label="kani")
                 tool.append(rec)
             else:
                 failed.append(rec)
+        if (r.get("status") != "Success" and not failed and not tool) or n_assert == 0:
+            tool.append({"clause": None, "kind": "tool", "harness": h, "group": g.name, "site": "-", "function": hid,
+                         "description": "harness did not complete: status=%s, %d checks reported (CBMC crash, memory or time limit?)"
+                         % (r.get("status"), n_assert)})
         results[hid] = {
             "group": g.name, "harness": h, "status": r.get("status"), "duration_s": r.get("duration_ms", 0) / 1000.0,
             "checks": n_assert, "failed": failed, "tool": tool, "covers_ok": covers_ok,
@@ -185,7 +245,10 @@ def playback(scratch, group, harness, timeout=1500):
     """Re-run one failing harness with concrete playback; returns list of (check description, values)."""
     cmd = kani_cmd([group.full(harness)], 1, None, playback=True)
     env = offline_env({"CARGO_TARGET_DIR": KANI_TARGET})
-    rc, out, err, wall = run(cmd, cwd=scratch, timeout=timeout, env=env)
+    for h in group.pre_hooks:
+        HOOKS[h](scratch, env)
+    with target_lock("kani"):
+        rc, out, err, wall = run(cmd, cwd=scratch, timeout=timeout, env=env)
     tests = []
     cur_desc, vals, in_vals = None, [], False
     for line in out.splitlines():
@@ -220,8 +283,11 @@ def native_replay(scratch, group, harness, values, timeout=1800):
             out.append(line)
     open(cargo, "w").write("\n".join(out) + "\n")
     env = offline_env({"CARGO_TARGET_DIR": REPLAY_TARGET, "RUSTFLAGS": "--cfg verif_replay -A warnings"})
-    rc, so, se, wall = run(["cargo", "test", "--offline", "--lib", "verif_replay_run", "--", "--nocapture"],
-                           cwd=scratch, timeout=timeout, env=env)
+    for h in group.pre_hooks:
+        HOOKS[h](scratch, env)
+    with target_lock("replay"):
+        rc, so, se, wall = run(["cargo", "test", "--offline", "--lib", "verif_replay_run", "--", "--nocapture"],
+                               cwd=scratch, timeout=timeout, env=env)
     text = so + "\n" + se
     tail = "\n".join(l for l in text.splitlines() if "panicked" in l or "[C" in l or "test result" in l
                      or "assertion" in l or "replay:" in l)[-2000:]
